@@ -1,0 +1,6 @@
+//go:build !verif
+
+package xpath
+
+// verifYield is a verification hook; a no-op unless built with -tags verif.
+func verifYield(site int) {}
